@@ -203,12 +203,13 @@ pub fn apply_change_to_db_try_fix_conflicts(
 }
 
 pub fn unwatch_key(key: &String, sender: &Sender<String>, db: &Database) -> Response {
-    let mut senders = get_senders(&key, &db.watchers);
+    // Filter the list in place under the write lock: a copy taken under a read lock and stored
+    // back later would drop every client that started watching in between
+    let mut watchers = db.watchers.map.write().expect("db.watchers.map.lock");
+    let senders = watchers.entry(key.clone()).or_insert_with(Vec::new);
     log::debug!("Senders before unwatch {:?}", senders.len());
     senders.retain(|x| !x.same_receiver(&sender));
     log::debug!("Senders after unwatch {:?}", senders.len());
-    let mut watchers = db.watchers.map.write().expect("db.watchers.map.lock");
-    watchers.insert(key.clone(), senders);
     Response::Ok {}
 }
 
